@@ -41,6 +41,14 @@ type RecFS struct {
 	// OnUnmount is called when an Unmount is about to succeed, with the labels the mount was made with.
 	OnUnmount func(mountpoint string, labels map[string]string)
 	Gen       string
+	// Inner, if set, is the real backend (fs.NewFilesystem of the instrumented copy): the outcome of
+	// Mount/Check/Unmount is then what the real filesystem returns (registry faults, verification,
+	// connectivity checks) instead of a draw; the recording and the mount table stay the same.
+	Inner interface {
+		Mount(ctx context.Context, mountpoint string, labels map[string]string) error
+		Check(ctx context.Context, mountpoint string, labels map[string]string) error
+		Unmount(ctx context.Context, mountpoint string) error
+	}
 }
 
 func NewRecFS(s *simrt.Sim, name string, failDen int) *RecFS {
@@ -97,7 +105,13 @@ func (f *RecFS) MountX(ctx context.Context, mountpoint string, labels map[string
 		f.rec(t, "mount", mountpoint, false, labels)
 		return fmt.Errorf("recfs: %s is already mounted", RelSnap(mountpoint))
 	}
-	if f.fail(t, "mount") {
+	if f.Inner != nil {
+		if err := f.Inner.Mount(ctx, mountpoint, labels); err != nil {
+			f.S.Stat("backend.real.mount-failed", 1)
+			f.rec(t, "mount", mountpoint, false, labels)
+			return err
+		}
+	} else if f.fail(t, "mount") {
 		if f.Dirty {
 			// do some work on the directory, then fail and clean up as the contract demands
 			p := filepath.Join(mountpoint, "partial")
@@ -127,7 +141,13 @@ func (f *RecFS) CheckX(ctx context.Context, mountpoint string, labels map[string
 		f.rec(t, "check", mountpoint, false, labels)
 		return fmt.Errorf("recfs: %s is not mounted", RelSnap(mountpoint))
 	}
-	if f.fail(t, "check") {
+	if f.Inner != nil {
+		if err := f.Inner.Check(ctx, mountpoint, labels); err != nil {
+			f.S.Stat("backend.real.check-failed", 1)
+			f.rec(t, "check", mountpoint, false, labels)
+			return err
+		}
+	} else if f.fail(t, "check") {
 		f.rec(t, "check", mountpoint, false, labels)
 		return errors.New("recfs: injected check failure")
 	}
@@ -144,7 +164,13 @@ func (f *RecFS) UnmountX(ctx context.Context, mountpoint string) error {
 		f.rec(t, "unmount", mountpoint, false, nil)
 		return fmt.Errorf("recfs: %s isn't a mountpoint", RelSnap(mountpoint))
 	}
-	if f.fail(t, "unmount") {
+	if f.Inner != nil {
+		if err := f.Inner.Unmount(ctx, mountpoint); err != nil {
+			f.S.Stat("backend.real.unmount-failed", 1)
+			f.rec(t, "unmount", mountpoint, false, nil)
+			return err
+		}
+	} else if f.fail(t, "unmount") {
 		f.rec(t, "unmount", mountpoint, false, nil)
 		return errors.New("recfs: injected unmount failure")
 	}
